@@ -10,10 +10,11 @@
     [outside_order] (every parent was assigned before its children's group, groups have distinct
     children) is checked on every generated input by [outside_orderb].
 
-    The statements are for the linear probability space over the reals; the logarithmic
-    space is related to it by C12 (exp is strictly increasing, so the argmax is the same). *)
+    [C13_rule] is for the linear probability space over the reals; [C13_both_spaces] shows that
+    the logarithmic space returns exactly the same indices (exp is strictly increasing). *)
 From Coq Require Import List QArith Reals Arith.
-From TsdateV Require Import lib.Num model.Discrete proofs.DiscreteBase proofs.DiscreteMax proofs.DiscreteEx.
+From TsdateV Require Import lib.Num model.Discrete model.DiscreteER proofs.DiscreteBase proofs.DiscreteMax
+  proofs.DiscreteLog proofs.DiscreteMaxRun proofs.DiscreteEx.
 Import ListNotations.
 Open Scope R_scope.
 
@@ -46,6 +47,23 @@ Theorem C13_rule : forall (G : nat) (fixed : nat -> bool) (ins : nat -> option (
   (forall u, (mx u < G)%nat).
 Proof. exact C13_rule_lemma. Qed.
 Print Assumptions C13_rule.
+
+(** the logarithmic space: with inside values and edge likelihoods that are the logarithms of
+    the linear ones (rel l x: l is -inf or finite and x = exp l), the model returns the same
+    indices, so [C13_rule] applies to the logarithmic run as well *)
+Theorem C13_both_spaces :
+  forall (fixed : nat -> bool) (insL : nat -> option (list ER)) (insR : nat -> option (list R)),
+  (forall u, match insL u, insR u with
+             | Some l, Some xs => Forall2 rel l xs
+             | None, None => True
+             | _, _ => False
+             end) ->
+  forall (poisL : nat -> nat -> nat -> ER) (poisR : nat -> nat -> nat -> R),
+  (forall e p t, rel (poisL e p t) (poisR e p t)) -> (forall e p t, 0 < poisR e p t) ->
+  forall n es,
+  outside_maximization LogER fixed insL poisL n es = outside_maximization LinR fixed insR poisR n es.
+Proof. exact maximization_agree. Qed.
+Print Assumptions C13_both_spaces.
 
 (** C13_on_grid: the returned time is [timepoints[idx]], in either probability space *)
 Theorem C13_on_grid : forall (P : Space) (tp : list (S P)) n mx u, (u < n)%nat ->
